@@ -56,6 +56,10 @@ func c17GenSet(seed int64, idx int, tag string) *yang.ModSet {
 		for _, k := range s.Kids {
 			walk(k)
 		}
+		if p := s.Find("presence"); p != nil && s.Kw == "container" && len(s.Arg)%2 == 0 {
+			// (the argument says what the presence means, to a reader; it may say nothing)
+			p.Arg = ""
+		}
 		if s.Kw == "list" && s.Find("key") != nil && s.FindArg("leaf", "id2") == nil && r.Chance(1, 3) {
 			s.Find("key").Arg += " id2"
 			id2 := yang.S("leaf", "id2", yang.S("type", core.Pick(r, []string{"uint8", "string", "int16"})))
@@ -137,7 +141,7 @@ func c17GenSet(seed int64, idx int, tag string) *yang.ModSet {
 			h := yang.S("container", fmt.Sprintf("hollow-%s-%d", strings.ReplaceAll(ms.Mods[0].Arg, "_", "-"), n))
 			h.Block = true
 			if r.Chance(1, 3) {
-				h.Add(yang.S("presence", "p"))
+				h.Add(yang.S("presence", []string{"p", ""}[n%2]))
 			}
 			if r.Chance(1, 4) {
 				// only a choice without any data node inside
